@@ -809,7 +809,14 @@ def add_empty_sandbox_lua_module(wtp: "Wtp") -> None:
     ns = wtp.NAMESPACE_DATA["Module"]
     ns_name = ns["name"]
     ns_id = ns["id"]
-    if not wtp.page_exists(f"{ns_name}:_sandbox_phase1", ns_id):
+    # Not page_exists(): title lookups turn "_" into " " and would never
+    # find this page, so that every context wrote (and committed) it again
+    # on its first Lua use.
+    row = wtp.db_conn.execute(
+        "SELECT 1 FROM pages WHERE title = ? AND namespace_id = ? LIMIT 1",
+        (f"{ns_name}:_sandbox_phase1", ns_id),
+    ).fetchone()
+    if row is None:
         wtp.add_page(
             f"{ns_name}:_sandbox_phase1", ns_id, body="", model="Scribunto"
         )
